@@ -155,6 +155,7 @@ func (r *Run) afterCall(st *State, fr *Frame, callee string, args []Val, res []V
 	}
 	ord := e.callOrdinal(fr.Fn, in, callee)
 	site := fmt.Sprintf("%s#%d", callee, ord)
+	e.sitesHit[e.fnName[fr.Fn]+"|"+site] = true
 	for _, cl := range cls {
 		if len(cl.Words) < 2 || cl.Words[0] != site {
 			continue
@@ -190,35 +191,42 @@ func (r *Run) afterCall(st *State, fr *Frame, callee string, args []Val, res []V
 // atCall: caller-side assertions about one call site (`at-call callee#n label : expr`, args as arg0..).
 func (r *Run) atCall(st *State, fr *Frame, callee string, args []Val, sig *types.Signature, in ssa.Instruction) {
 	e := r.e
-	blk := e.cs.Funcs[e.fnName[fr.Fn]]
-	if blk == nil {
-		return
-	}
-	cls := blk.All("at-call")
-	if len(cls) == 0 {
-		return
-	}
 	ord := e.callOrdinal(fr.Fn, in, callee)
 	site := fmt.Sprintf("%s#%d", callee, ord)
-	for _, cl := range cls {
-		if len(cl.Words) < 1 || cl.Words[0] != site {
+	// the clause may live in the block of the function containing the call, or in the block of an
+	// enclosing (inlining) function, where the site is written inlined1>inlined2>callee#n
+	for j := len(st.Frames) - 1; j >= 0; j-- {
+		f := st.Frames[j]
+		qs := site
+		for k := len(st.Frames) - 1; k > j; k-- {
+			qs = e.fnName[st.Frames[k].Fn] + ">" + qs
+		}
+		fname := e.fnName[f.Fn]
+		e.sitesHit[fname+"|"+qs] = true
+		blk := e.cs.Funcs[fname]
+		if blk == nil {
 			continue
 		}
-		extra := map[string]SV{}
-		for i, a := range args {
-			sv := SV{V: a}
-			if sig != nil {
-				k := i
-				if sig.Recv() != nil && len(args) > sig.Params().Len() {
-					k = i - 1
-				}
-				if k >= 0 && k < sig.Params().Len() {
-					sv.T = sig.Params().At(k).Type()
-				}
+		for _, cl := range blk.All("at-call") {
+			if len(cl.Words) < 1 || cl.Words[0] != qs {
+				continue
 			}
-			extra[fmt.Sprintf("arg%d", i)] = sv
+			extra := map[string]SV{}
+			for i, a := range args {
+				sv := SV{V: a}
+				if sig != nil {
+					k := i
+					if sig.Recv() != nil && len(args) > sig.Params().Len() {
+						k = i - 1
+					}
+					if k >= 0 && k < sig.Params().Len() {
+						sv.T = sig.Params().At(k).Type()
+					}
+				}
+				extra[fmt.Sprintf("arg%d", i)] = sv
+			}
+			e.obligationClause(st, f, fmt.Sprintf("%s/at-call@%s:%s", fname, qs, cl.Label()), cl, extra)
 		}
-		e.obligationClause(st, fr, fmt.Sprintf("%s/at-call@%s:%s", e.fnName[fr.Fn], site, cl.Label()), cl, extra)
 	}
 }
 
@@ -258,6 +266,7 @@ func (r *Run) callFunction(st *State, fr *Frame, fn *ssa.Function, binds []Val, 
 }
 
 func (r *Run) pushFrame(st *State, fn *ssa.Function, binds []Val, args []Val, dst ssa.Value, in ssa.Instruction) *Frame {
+	r.e.entered[r.e.fnName[fn]] = true
 	nf := &Frame{Fn: fn, Vals: map[ssa.Value]Val{}, Binds: binds, Args: args, Dst: dst, Cells: map[string]*Cell{}, LoopSeen: map[int]bool{}, CallSite: in}
 	for i, p := range fn.Params {
 		if i < len(args) {
@@ -274,6 +283,31 @@ func (r *Run) pushFrame(st *State, fn *ssa.Function, binds []Val, args []Val, ds
 // callOrdinal: index of this call among the calls of the same callee in the calling function.
 func (e *Engine) callOrdinal(caller *ssa.Function, in ssa.Instruction, callee string) int {
 	n := 0
+	if callee == "send" {
+		// ordinal among the instructions that can send (Send, Select with a send case)
+		for _, b := range caller.Blocks {
+			for _, i := range b.Instrs {
+				isSend := false
+				switch x := i.(type) {
+				case *ssa.Send:
+					isSend = true
+				case *ssa.Select:
+					for _, s := range x.States {
+						if s.Dir == types.SendOnly {
+							isSend = true
+						}
+					}
+				}
+				if isSend {
+					if i == in {
+						return n
+					}
+					n++
+				}
+			}
+		}
+		return n
+	}
 	for _, b := range caller.Blocks {
 		for _, i := range b.Instrs {
 			if ci, ok := i.(ssa.CallInstruction); ok {
@@ -576,6 +610,10 @@ func (r *Run) havocMapAt(st *State, mt types.Type, m T) {
 
 func (r *Run) builtin(st *State, fr *Frame, b *ssa.Builtin, cc *ssa.CallCommon, args []Val, dst ssa.Value, in ssa.Instruction) []*State {
 	e := r.e
+	switch b.Name() {
+	case "close", "delete", "panic", "append", "copy":
+		r.atCall(st, fr, "builtin."+b.Name(), args, nil, in)
+	}
 	switch b.Name() {
 	case "len":
 		switch x := args[0].(type) {
